@@ -20,7 +20,7 @@ def keyof(n): return EK[int(n[1:])]
 def events(raw):
     out = []
     for l in raw.splitlines():
-        p = l.split()
+        p = l.replace(' (fwd)', '').split()
         if len(p) >= 2 and (p[0].isdigit() or p[0] == '-1'): out.append(p)
     return out
 
